@@ -371,7 +371,8 @@ class ClassObject(Object, Callable):
     @cached_property
     def bases(self):
         # type: () -> list[CallableProto]
-        return list(filter(None, (self.ctx.evaluate(r) for r in self.scope._bases)))  # type: ignore[misc]
+        bases = filter(None, (self.ctx.evaluate(r) for r in self.scope._bases))
+        return [b for b in bases if hasattr(type(b), '_attrs') and hasattr(b, 'call')]  # type: ignore[misc]
 
     @cached_property
     def _attrs(self):
